@@ -102,6 +102,19 @@ def chk_corr(inp):
                 if not close(c[:, 0], want, 1e-6) or not close(c[:, 1], [nx / 2., ny / 2.], 1e-6):
                     return bad("correlation centroid of an image displaced by (sy=%d,sx=%d) is not displaced by it from the array centre (shape %dx%d, padding %d)" % (sy, sx, ny, nx, pad),
                                numpy.asarray(c).tolist(), want)
+    # odd sizes (the array centre n/2 is a half-integer: the reference lands within half a pixel of it; the DISPLACEMENT is exact)
+    for (ny, nx) in ((9, 9), (11, 7), (9, 12), (7, 10)):
+        ref = numpy.zeros((ny, nx)); ref[ny // 2 - 1:ny // 2 + 2, nx // 2 - 1:nx // 2 + 2] = 1.0
+        ref += 0.01
+        for pad in (1, 2, 3, 4):
+            for (sy, sx) in ((0, 0), (1, -2), (-1, 1)):
+                im = numpy.roll(ref, (sy, sx), (0, 1))
+                c = CN.correlation_centroid(numpy.array([im, ref]), ref.copy(), threshold=0.5, padding=pad)
+                if numpy.shape(c) != (2, 2) or not close(c[:, 0] - c[:, 1], [sx, sy], 1e-6):
+                    return bad("correlation centroid of an image displaced by (sy=%d,sx=%d) is not displaced by it w.r.t. the undisplaced one (shape %dx%d, padding %d)" % (sy, sx, ny, nx, pad),
+                               numpy.asarray(c).tolist(), [sx, sy])
+                if abs(c[0, 1] - nx / 2.) > 0.5 + 1e-6 or abs(c[1, 1] - ny / 2.) > 0.5 + 1e-6:
+                    return bad("correlation centroid of the reference with itself is not at the array centre (shape %dx%d, padding %d)" % (ny, nx, pad), numpy.asarray(c[:, 1]).tolist(), [nx / 2., ny / 2.])
 
 
 one = lambda t, s: [{}]
